@@ -74,7 +74,7 @@ func c15Extra(r *lp.Run, mod *gc.Module) *c15pkgs {
 	for _, loc := range []string{"path", "query", "header", "cookie"} {
 		for _, style := range styles[loc] {
 			for _, explode := range []bool{false, true} {
-				for _, sh := range []string{"allofobj", "allofarr", "allofobjarr", "oneofobj", "mapstr", "mapofarr", "mapofobj", "objmap"} {
+				for _, sh := range []string{"allofobj", "allofarr", "allofobjarr", "oneofobj", "mapstr", "mapofarr", "mapofobj", "objmap", "objmapprop", "recobj"} {
 					k++
 					if !r.Thorough() && k%2 != int(r.Seed%2) && !(style == "pipeDelimited" && sh == "allofobj") {
 						continue
@@ -125,6 +125,16 @@ func c15ExtraRun(r *lp.Run, drv *gc.Driver, x *c15pkgs) {
 				q := mk()
 				q.header["Cookie"] = []string{v}
 				qs = append(qs, q)
+			}
+		}
+		// the generated client with type-directed random values of the parameter: it must not panic either
+		for seed := 1; seed <= 6; seed++ {
+			ans, _ := drv.Do(map[string]any{"pkg": n.pkg.Name, "cmd": "callrandom", "op": "Op", "text": fmt.Sprint(seed*7919 + len(n.shape)), "script": map[string]any{}})
+			r.PropCheck()
+			r.Count(fmt.Sprint(n.loc, n.shape, "client", seed), "nested-client-call", true)
+			if ans["panic"] != nil || ans["crash"] != nil || ans["driver_panic"] != nil {
+				r.Fail(lp.PropFail{Property: "C15", What: "the client generated for a nested or composed parameter shape panics when the parameter is set", Input: map[string]any{"location": n.loc, "shape": n.shape, "value": ans["given"]}, Observed: fmt.Sprint(ans["panic"], ans["crash"], ans["driver_panic"]), Expected: "a request or an error (or no such client: the shape has no serialization)"})
+				break
 			}
 		}
 		for _, q := range qs {
